@@ -271,7 +271,7 @@ def run(tier, replay):
         raise ToolError("Decode.tla: %s violated by the contract machine itself" % m.invariant_violated)
     vlib.tlc_ok(m, "MC_Decode")
     ac = m.action_counts()
-    if m.distinct < 500 or ac.get("Begin", (0, 0))[0] == 0 or ac.get("Read", (0, 0))[0] == 0:
+    if m.distinct < 500 or ac.get("Begin", (0, 0))[0] == 0 or ac.get("Read", (0, 0))[0] == 0 or ac.get("PostStep", (0, 0))[0] == 0:
         raise ToolError("MC_Decode is vacuous: %s %s" % (m.distinct, ac))
     # ... and the monitor is not vacuous: an unconstrained decoder violates each clause
     viol = {}
@@ -325,7 +325,9 @@ def run(tier, replay):
     catalogue = sorted({x for v in STEPS_OF.values() for x in v})
     steps_run = info.get("steps", {})
     never_run = [x for x in catalogue if steps_run.get(x, [0, 0])[0] == 0]
-    never_ok = [x for x in catalogue if steps_run.get(x, [0, 0])[1] == 0]
+    # (a SegmentProof is not a message of its own: its Ok path runs inside Segment::validate / validate_with on the valid segments)
+    ok_not_required = {"SegmentProof::validate", "SegmentProof::validate_with"}
+    never_ok = [x for x in catalogue if steps_run.get(x, [0, 0])[1] == 0 and x not in ok_not_required]
     if (never_run or never_ok) and not rep.violations:
         raise ToolError("post-decode steps of the catalogue never executed %s / never returned Ok %s (vacuous)" % (never_run, never_ok))
 
